@@ -30,6 +30,11 @@ def main():
             if a.replay:
                 return numchecks.replay(prop, a.replay)
             return numchecks.run(prop, a.tier, seed)
+        if prop in ("C04", "C08"):
+            from hv import parsechecks
+            if a.replay:
+                return parsechecks.replay(prop, a.replay)
+            return parsechecks.run(prop, a.tier, seed)
         print("unknown property", prop)
         return 2
     except C.BuildError as e:
